@@ -70,6 +70,8 @@ def run(F, chk):
     check_no_defaults(m, F4)
     check_field_agreement(m, ser[0], fj, F1)
     check_regex_cache(F, F2)
+    F5 = chk.rule('F5', 'a short JSON form (key that carries no mask) is written by Serialize only under `mask == the constant from_json reloads it with`')
+    check_short_forms(ser[0], fj, F5)
 
 
 def check_matches_shape(m, F3):
@@ -261,3 +263,87 @@ def check_no_defaults(m, F4):
     F4.sites += n
     if not bad:
         F4.ok(sample={'calls_examined': n, 'defaulting_combinators_on_criteria': 0})
+
+
+# ---------------------------------------------------------------------------------------------
+# F5: short JSON forms agree between Serialize and from_json
+
+def const_eval(e):
+    """value of a constant expression (ints, Shl/Shr/BitAnd/BitOr/Add of constants, casts), else None"""
+    if isinstance(e, int):
+        return e
+    if not isinstance(e, tuple):
+        try:
+            return int(str(e), 0)
+        except ValueError:
+            return None
+    if e[0] == 'const':
+        try:
+            return int(str(e[1]).split('_')[0], 0)
+        except ValueError:
+            return None
+    if e[0] == 'cast':
+        return const_eval(e[1])
+    if e[0] == 'bin':
+        a, b = const_eval(e[2]), const_eval(e[3])
+        if a is None or b is None:
+            return None
+        op = e[1]
+        return {'Shl': lambda: a << b, 'Shr': lambda: a >> b, 'BitAnd': lambda: a & b, 'BitOr': lambda: a | b, 'Add': lambda: a + b,
+                'Sub': lambda: a - b, 'Mul': lambda: a * b}.get(op, lambda: None)()
+    return None
+
+
+def check_short_forms(ser, fj, F5):
+    """The message-type criterion is a pair (value, mask).  from_json builds the pair from one of several JSON keys; for a key
+    whose pair has a *constant* mask (the short "mstp" form), Serialize may write that key only under the condition
+    `mask == that constant` - otherwise to_json() -> from_json() changes which messages match."""
+    F5.fn(ser.path); F5.fn(fj.path)
+    cfj = CFG(fj)
+    Ef = ExprBuilder(cfj, fold_named=True)
+    masks = {}      # key -> ('const', value) | ('dyn', text)
+    for b in fj.blocks:
+        if b.cleanup:
+            continue
+        for s in b.stmts:
+            if s.k == 'assign' and s.rv['k'] == 'agg' and s.rv.get('ak') == 'tuple' and (s.place.t or '') == '(u8, u8)':
+                e = Ef.rvalue(s.rv)
+                first, second = e[2][0], e[2][1]
+                keys = [x[1] for x in walk(first) if isinstance(x, tuple) and x and x[0] == 'str']
+                for k in keys:
+                    k = k.strip('"')
+                    v = const_eval(second)
+                    masks[k] = ('const', v) if v is not None else ('dyn', show(second))
+    F5.floor('JSON keys from which from_json builds the (value, mask) message-type pair', len(masks), 2)
+    cs = CFG(ser)
+    Es = ExprBuilder(cs, fold_named=True)
+    n = 0
+    for blk in ser.calls():
+        t = blk.term
+        if not t.callee.path.endswith('::serialize_field') or len(t.args) < 3:
+            continue
+        key = show(Es.operand(t.args[1])).strip('"')
+        if key not in masks:
+            continue
+        n += 1
+        F5.sites += 1
+        kind, mv = masks[key]
+        conds = [(c, truth) for (c, truth, D) in guards.known(cs, Es, blk.i) if isinstance(c, tuple) and 'verb_mstp_mtin' in show(c) and show(c).count('.1')]
+        if kind == 'const':
+            ok = False
+            for (c, truth) in conds:
+                if isinstance(truth, tuple) and truth[0] == 'eq' and truth[1] == mv and show(c).endswith('.1'):
+                    ok = True       # `match mask { 14 => .. }`
+                if c[0] == 'bin' and c[1] == 'Eq' and truth is True:
+                    for side, other in ((c[2], c[3]), (c[3], c[2])):
+                        if const_eval(other) == mv and show(side).endswith('.1') and 'verb_mstp_mtin' in show(side):
+                            ok = True
+            if ok:
+                F5.ok(sample={'json_key': key, 'from_json_mask': mv, 'serialize_guard': 'mask == %d' % mv})
+            else:
+                F5.violation(('short-form-guard', key), 'Serialize writes the short JSON key "%s" (which carries no mask; from_json reloads it with mask %#x) at %s without a dominating `mask == %#x` test '
+                             '(conditions on the mask here: %s): a filter with another mask changes its meaning in a to_json -> from_json round trip'
+                             % (key, mv, ser.loc(t.sp), mv, '; '.join('%s is %s' % (show(c), truth) for (c, truth) in conds) or 'none'), where=ser.loc(t.sp))
+        else:
+            F5.ok(sample={'json_key': key, 'from_json_mask': 'derived from the value: ' + mv[:60], 'serialize_guard': [show(c) for (c, _) in conds][:2]})
+    F5.floor('Serialize sites writing a message-type key', n, 2)
